@@ -68,6 +68,8 @@ type FuncContract struct {
 	Replay     string
 	Inline     bool
 	Lets       []GhostDecl // let name = expr (evaluated at entry, old state)
+	Dead       map[string]bool // return#N sites that the contracts make unreachable (their cover must be unsat)
+	Monitor    []*Clause       // type invariants: assumed at entry, re-established at exit, not checked at call sites
 }
 
 type FieldDecl struct {
@@ -109,7 +111,7 @@ var tagRe = regexp.MustCompile(`^([a-z_]+)(\[[A-Za-z0-9, ]+\])?\s*(.*)$`)
 var keywords = map[string]bool{"pred": true, "axiom": true, "field": true, "rely": true, "func": true, "mode": true,
 	"requires": true, "ensures": true, "panics": true, "modifies": true, "pure": true, "interferes": true, "may_panic": true,
 	"nocheck": true, "safety": true, "ghost": true, "loop": true, "invariant": true, "decreases": true, "at": true,
-	"replay": true, "inline": true, "lockinv": true, "lemma": true, "let": true, "nopanic": true, "vars": true}
+	"replay": true, "inline": true, "lockinv": true, "dead": true, "monitor": true, "lemma": true, "let": true, "nopanic": true, "vars": true}
 
 func parseTags(s string) []string {
 	s = strings.Trim(s, "[]")
@@ -260,6 +262,9 @@ func LoadContractFile(path string, cs *ContractSet) error {
 					fd.Contents = strings.Join(parts[4:], " ")
 				}
 			}
+			if parts[1] == "immutable" && len(parts) >= 4 && parts[2] == "contents" {
+				fd.Contents = strings.Join(parts[3:], " ")
+			}
 			cs.Fields = append(cs.Fields, fd)
 		case "lemma":
 			curLemma = &LemmaDecl{Name: rest, Tags: tags}
@@ -323,6 +328,17 @@ func LoadContractFile(path string, cs *ContractSet) error {
 						cur.Modifies = append(cur.Modifies, p)
 					}
 				}
+			case "dead":
+				if cur.Dead == nil {
+					cur.Dead = map[string]bool{}
+				}
+				cur.Dead[strings.TrimSpace(rest)] = true
+			case "monitor":
+				c, err := mkClause("monitor", tags, rest, l.no)
+				if err != nil {
+					return err
+				}
+				cur.Monitor = append(cur.Monitor, c)
 			case "pure":
 				cur.Pure = true
 			case "interferes":
